@@ -27,6 +27,32 @@ PRELUDE = r'''
 (defn thread-sleep [d] (ev/thread (fn [] (os/sleep d))))
 (defn thread-give [c d v] (ev/thread (fn [] (os/sleep d) (ev/give c v)) nil :n))
 (defn thread-echo [c back n] (ev/thread (fn [] (for k 0 n (ev/give back (ev/take c)))) nil :n))
+# wait (logically, not by the clock) until n fibers are parked on the stream (read side, write side)
+(defn wait-parked [s n] (while (< (c20/pending s) n) (ev/sleep 0.001)))
+# a write of this size to a peer that never reads cannot complete: the writer stays parked
+(var big-payload-cache nil)
+(defn big-payload [] (or big-payload-cache (set big-payload-cache (buffer/new-filled (* 32 1024 1024) (chr "x")))))
+(defn connected-pair []
+  # [client-side stream, server-side stream, listener]; the server side never reads or writes on its own
+  (def l (net/listen "127.0.0.1" "0"))
+  (def [_ port] (net/localname l))
+  (def c (net/connect "127.0.0.1" (string port)))
+  (def a (net/accept l))
+  [c a l])
+# reader and writer parked on the same duplex stream at once, then `how` happens; both must be released
+(defn duplex-both [how]
+  (def [c a l] (connected-pair))
+  (def dn (ev/chan 2))
+  (def fr (ev/spawn (try (ev/read c 16) ([e] nil)) (ev/give dn :reader)))
+  (def fw (ev/spawn (try (ev/write c (big-payload)) ([e] nil)) (ev/give dn :writer)))
+  (wait-parked c 2)
+  (case how
+    :close (ev/close c)
+    :peer-close (ev/close a)
+    :cancel-then-close (do (ev/cancel fr :x) (ev/cancel fw :x) (ev/sleep 0) (ev/close c))
+    :close-then-cancel (do (ev/close c) (ev/cancel fw :x) (ev/cancel fr :x)))
+  (ev/take dn) (ev/take dn)
+  (ev/close c) (ev/close a) (ev/close l))
 (defn free-port-listener []
   # listen on an ephemeral loopback port; returns [server port]
   (def s (net/listen "127.0.0.1" "0"))
@@ -160,6 +186,48 @@ CYCLES = {
   (ev/write c "hi") (ev/read a 2)
   (ev/close c) (ev/close a) (ev/close s)
   (os/rm path)'''),
+    # ---- two waiters of different kinds on one object
+    "duplex-close-both": ("net", r'''
+  (duplex-both :close)'''),
+    "duplex-peer-close-both": ("net", r'''
+  (duplex-both :peer-close)'''),
+    "duplex-cancel-both": ("net", r'''
+  (duplex-both (if (even? i) :cancel-then-close :close-then-cancel))'''),
+    "accept-then-close": ("net", r'''
+  (def [s port] (free-port-listener))
+  (def t (ev/spawn (try (net/accept s) ([e] nil))))
+  (wait-parked s 1)
+  (ev/close s)
+  (quiesce)'''),
+    "proc-wait-kill-close-pipes": ("proc", r'''
+  (def p (os/spawn ["cat"] :p {:in :pipe :out :pipe}))
+  (def dn (ev/chan 2))
+  (ev/spawn (os/proc-wait p) (ev/give dn :waiter))
+  (ev/spawn (try (ev/read (p :out) 10) ([e] nil)) (ev/give dn :reader))
+  (wait-parked (p :out) 1)
+  (os/proc-kill p)
+  (ev/close (p :out)) (ev/close (p :in))
+  (ev/take dn) (ev/take dn)'''),
+    "deadline-then-close": ("cheap", r'''
+  (def [r w] (os/pipe))
+  (def t (ev/spawn (try (ev/with-deadline 1000000 (ev/read r 10)) ([e] nil))))
+  (wait-parked r 1)
+  (ev/close r) (ev/close w)
+  (quiesce)'''),
+    # ---- shared (reference counted) objects travelling through thread channels and coming back to a thread that holds them
+    "shared-object-pingpong-local": ("cheap", r'''
+  (def c (ev/thread-chan 4))
+  (def objs [(ev/thread-chan 1) (ev/lock) (ev/rwlock)])
+  (each o objs (ev/give c o))
+  (each o objs (assert (= o (ev/take c))))     # re-received by the thread that already holds them
+  (ev/give c (objs 0)) (ev/take c)'''),
+    "shared-object-pingpong-worker": ("thread", r'''
+  (def c (ev/thread-chan 2))
+  (def back (ev/thread-chan 2))
+  (thread-echo c back 3)
+  (def objs [(ev/thread-chan 1) (ev/lock) (ev/rwlock)])
+  (each o objs (ev/give c o) (assert (= o (ev/take back))))   # sent to a worker, comes back
+  (quiesce)'''),
     # ---- channels
     "chan-traffic": ("cheap", r'''
   (def c (ev/chan {B}))
@@ -330,6 +398,23 @@ def _task(kind, k, rng):
     if kind == "stale-timeout":
         return ("(def [r%d w%d] (os/pipe))" % (k, k),
                 "(ev/write w%d \"z\") (ev/read r%d 1 nil 1000000) (ev/close r%d) (ev/close w%d) (ev/sleep %g)" % (k, k, k, k, d), "done", "")
+    if kind in ("duplex-close-both", "duplex-peer-close-both", "duplex-cancel-both"):
+        how = {"duplex-close-both": ":close", "duplex-peer-close-both": ":peer-close",
+               "duplex-cancel-both": rng.choice([":cancel-then-close", ":close-then-cancel"])}[kind]
+        return "", "(duplex-both %s)" % how, "done", ""
+    if kind == "accept-then-close":
+        return ("(def [s%d port%d] (free-port-listener))" % (k, k),
+                "(def dn (ev/chan 1)) (ev/spawn (try (net/accept s%d) ([e] nil)) (ev/give dn 1)) (wait-parked s%d 1) (ev/close s%d) (ev/take dn)" % (k, k, k),
+                "done", "")
+    if kind == "proc-wait-kill-close-pipes":
+        return ("(def p%d (os/spawn [\"cat\"] :p {:in :pipe :out :pipe}))" % k,
+                "(def dn (ev/chan 2)) (ev/spawn (os/proc-wait p%d) (ev/give dn 1)) (ev/spawn (try (ev/read (p%d :out) 10) ([e] nil)) (ev/give dn 2)) "
+                "(wait-parked (p%d :out) 1) (os/proc-kill p%d) (ev/close (p%d :out)) (ev/close (p%d :in)) (ev/take dn) (ev/take dn)" % (k, k, k, k, k, k),
+                "done", "")
+    if kind == "deadline-then-close":
+        return ("(def [r%d w%d] (os/pipe))" % (k, k),
+                "(def dn (ev/chan 1)) (ev/spawn (try (ev/with-deadline 1000000 (ev/read r%d 10)) ([e] nil)) (ev/give dn 1)) (wait-parked r%d 1) "
+                "(ev/close r%d) (ev/close w%d) (ev/take dn)" % (k, k, k, k), "done", "")
     if kind == "thread-nowait":
         # fire and forget: only the event loop's own count keeps the program alive until the thread has finished
         return "", "(thread-nowait-log %g %d)" % (d * 2, 1000 + k), "done", "", {1000 + k: "done"}
@@ -368,7 +453,9 @@ def _task(kind, k, rng):
 
 MIX_KINDS = ["sleep", "sleep-chain", "thread", "do-thread", "proc", "execute", "pipe", "proc-pipe", "tcp", "chan", "tchan-thread",
              "read-timeout", "deadline", "stale-deadline", "stale-timeout", "cancel-sleep", "cancel-take", "cancel-tchan-take",
-             "cancel-read", "cancel-proc-wait", "close-under-read", "chan-close-under-take", "loop1-interrupt", "thread-nowait", "proc-wait-abandoned", "cancel-thread-await"]
+             "cancel-read", "cancel-proc-wait", "close-under-read", "chan-close-under-take", "loop1-interrupt", "thread-nowait", "proc-wait-abandoned", "cancel-thread-await",
+             "duplex-close-both", "duplex-peer-close-both", "duplex-cancel-both", "accept-then-close", "proc-wait-kill-close-pipes",
+             "deadline-then-close"]
 
 
 def mix_script(rng, ntasks, kinds=None):
